@@ -187,3 +187,42 @@ def verdict_class(s: str) -> str:
     if s.startswith("FAIL"):
         return "FAIL"
     return s
+
+
+def odd_regex(rng, nodes):
+    """shapes for which it matters that the pattern is applied with re.match semantics (anchored at the start only, not at
+    the end; alternation binds weakest; a fragment from the middle of a name matches nothing)"""
+    n, m = rng.choice(nodes), rng.choice(nodes)
+    import re
+
+    e = re.escape
+    last = n.split(".")[-1]
+    mid = rng.choice(m.split(".")[1:] or [m])          # a component that is not the first one (if there is one)
+    k = rng.randrange(14)
+    if k == 0:
+        return ".*" + e(last) + "$"
+    if k == 1:
+        return ".*" + e(last) + "$|" + e(mid)            # top-level alternation after a leading .*
+    if k == 2:
+        return e(n) + "$|" + e(m)                         # ungrouped alternation, second branch open at the end
+    if k == 3:
+        return "(?:" + e(n) + "|" + e(m) + r")\..*"
+    if k == 4:
+        return r".*\." + e(last)                          # open at the end: also what extends the last component
+    if k == 5:
+        return e(mid)                                     # a fragment from inside a name: only names STARTING with it
+    if k == 6:
+        return "^" + e(n) + r"\Z"
+    if k == 7:
+        return r"[^.]+\." + e(last) + "$"
+    if k == 8:
+        return "(?!" + e(n) + r"(\.|$)).*"               # everything outside n
+    if k == 9:
+        return "(?i)" + e(n.upper()) + "$"
+    if k == 10:
+        return e(n) + "(" + e("." + mid) + ")?$"
+    if k == 11:
+        return ".+" if rng.random() < 0.5 else ".*"
+    if k == 12:
+        return e(n[: max(1, len(n) // 2)])               # half a name
+    return ".*" + e(mid) + ".*$|^" + e(n) + "$"
